@@ -172,7 +172,11 @@ func (k Keeper) UpdateLPRewards(ctx sdk.Context) error {
 	if err != nil {
 		return err
 	}
-	gasFeesForLpsDec = gasFeesForLpsDec.Add(perpRevenue...)
+	// only whole coins were moved into the module by the two collections above: credit what was moved, not the
+	// fractional shares (their sum can reach a whole coin that nobody funded, every block while dust sits in a wallet)
+	gasFeesForLpsCoins, _ := gasFeesForLpsDec.TruncateDecimal()
+	perpRevenueCoins, _ := perpRevenue.TruncateDecimal()
+	gasFeesForLpsDec = sdk.NewDecCoinsFromCoins(gasFeesForLpsCoins...).Add(sdk.NewDecCoinsFromCoins(perpRevenueCoins...)...)
 	_, _, rewardsPerPool, err := k.CollectDEXRevenue(ctx)
 	if err != nil {
 		return err
